@@ -14,6 +14,7 @@ R13.8 root-less queries and bare names build the same selector as the quoted for
 from __future__ import annotations
 
 import ast
+import re
 import copy
 from typing import Dict
 from typing import List
@@ -57,6 +58,23 @@ def parser_tables(ctx: Ctx) -> Dict[str, Dict[str, str]]:
     return ctx.tokflow.tables
 
 
+#: operator -> ((operands it is true for), (operands it is false for))
+_OPERATOR_WITNESSES = {
+    "&&": ((True, True), (True, False)), "||": ((False, True), (False, False)), "==": ((1, 1), (1, 2)), "!=": ((1, 2), (1, 1)), "<>": ((1, 2), (1, 1)),
+    "<": ((1, 2), (2, 1)), ">": ((2, 1), (1, 2)), "<=": ((1, 1), (2, 1)), ">=": ((1, 1), (1, 2)), "in": ((1, (1, 2)), (3, (1, 2))),
+    "contains": (((1, 2), 1), ((1, 2), 3)), "=~": (("abc", re.compile("a.c")), ("xabcx", re.compile("a.c"))),
+}
+
+
+def _branches(ctx: Ctx):  # type: ignore[no-untyped-def]
+    """The branches of compare() per operator, or None when its dispatch is not spelled as tests on the operator."""
+    try:
+        br = compare_branches(ctx)
+    except AnalysisError:
+        return None
+    return br if all(op in br for op in ("==", "!=", "<", "in", "contains", "=~", "&&", "||")) else None
+
+
 def r13_1(ctx: Ctx) -> RuleResult:
     rr = RuleResult("R13.1", "every parsed operator is evaluated; `<>` equals `!=`", floor=12)
     parser = ctx.repo.require_class("Parser")
@@ -66,8 +84,45 @@ def r13_1(ctx: Ctx) -> RuleResult:
     except NotConst as err:
         raise AnalysisError(f"R13.1: parser operator tables cannot be folded: {err}") from err
     fn = ctx.repo.require_func("JSONPathEnvironment.compare")
-    br = compare_branches(ctx)
-    for tok, op in sorted(ops.items()):
+    br = _branches(ctx)
+    if br is None:
+        # compare() dispatches through data: each operator the parser emits is executed on a witness for which it
+        # must answer true, and on one for which it must answer false (an operator without an entry answers false
+        # to both); the aliases must answer like their standard spelling on a grid of operands
+        from sa.peval import UNKNOWN as _UNK
+
+        from .c02 import run_compare
+        from .model import RAISES as _RAISES
+
+        for tok, op in sorted(ops.items()):
+            wit = _OPERATOR_WITNESSES.get(op)
+            if wit is None:
+                raise AnalysisError(f"R13.1: no witness operands for the operator `{op}` the parser emits")
+            (ta, tb), (fa, fb) = wit
+            yes, no = run_compare(ctx, "R13.1", ta, op, tb), run_compare(ctx, "R13.1", fa, op, fb)
+            if yes is _UNK or no is _UNK:
+                raise AnalysisError(f"R13.1: what compare() answers for `{op}` cannot be determined")
+            if yes is True and no is False:
+                rr.ok(fn.loc(), f"operator `{op}` ({tok}) is evaluated: {ta!r} {op} {tb!r} is true, {fa!r} {op} {fb!r} is false")
+            else:
+                rr.bad(fn, fn.node, f"the parser emits the operator `{op}` (token {tok}) but compare() answers {'an exception' if yes is _RAISES else yes} for "
+                       f"`{ta!r} {op} {tb!r}` and {'an exception' if no is _RAISES else no} for `{fa!r} {op} {fb!r}`", construct=f"no branch for {op}")
+        grid = [None, True, False, 0, 1, 1.0, 2, "a", "b", "", (), (1,), (1, 2), {}, {"a": 1}]
+        for alias, std in OPERATOR_ALIASES:
+            diff = next(((a, b) for a in grid for b in grid if run_compare(ctx, "R13.1", a, alias, b) != run_compare(ctx, "R13.1", a, std, b)), None)
+            if diff is None:
+                rr.ok(fn.loc(), f"`{alias}` computes the same as `{std}` on {len(grid) ** 2} pairs of operands")
+            else:
+                rr.bad(fn, fn.node, f"`{alias}` must evaluate exactly like `{std}`: they differ for {diff[0]!r} and {diff[1]!r}", construct=f"{alias} vs {std}")
+            if (alias in cmp_ops) == (std in cmp_ops):
+                rr.ok(f"{parser.module.relpath}:{parser.node.lineno}", f"`{alias}` and `{std}` get the same comparability checks")
+            else:
+                rr.bad(None, None, f"`{std}` is in Parser.COMPARISON_OPERATORS but its alias `{alias}` is not (or vice "
+                       "versa): non-singular queries and logical functions are not rejected for the alias",
+                       construct=f"COMPARISON_OPERATORS: {alias} vs {std}", file=parser.module.relpath,
+                       qualname=parser.qualname + ".COMPARISON_OPERATORS")
+        br = {}
+    for tok, op in sorted(ops.items()) if br else []:
         if op in br:
             rr.ok(fn.loc(br[op][0]), f"operator `{op}` ({tok}) has a branch in compare()")
         else:
@@ -179,7 +234,18 @@ def r13_3(ctx: Ctx) -> RuleResult:
     fn = ctx.repo.require_func("JSONPathEnvironment.compare")
     params = [a.arg for a in fn.node.args.args]
     left, opname, right = params[1], params[2], params[3]
-    br = compare_branches(ctx)
+    br = _branches(ctx)
+    if br is None:
+        from .c02 import run_compare
+
+        grid = [None, True, 0, 1, 2, "a", "ab", "", (), (1,), (1, 2), ("a",), {}, {"a": 1}, {"1": 0}]
+        diff = next(((a, b) for a in grid for b in grid if run_compare(ctx, "R13.3", a, "contains", b) != run_compare(ctx, "R13.3", b, "in", a)), None)
+        if diff is None:
+            rr.ok(fn.loc(), f"`a contains b` answers like `b in a` on {len(grid) ** 2} pairs of operands (compare() executed abstractly)")
+        else:
+            rr.bad(fn, fn.node, f"`{diff[0]!r} contains {diff[1]!r}` and `{diff[1]!r} in {diff[0]!r}` differ: `contains` is not `in` with the operands swapped",
+                   construct=f"contains vs in: {diff[0]!r}, {diff[1]!r}")
+        return rr
     if "in" not in br or "contains" not in br:
         rr.bad(fn, fn.node, "compare() lacks a branch for `in` or `contains`", construct="in/contains branches")
         return rr
@@ -197,10 +263,27 @@ def r13_3(ctx: Ctx) -> RuleResult:
 def r13_4(ctx: Ctx) -> RuleResult:
     rr = RuleResult("R13.4", "`=~` is a full match and regex flags are compiled in", floor=2)
     fn = ctx.repo.require_func("JSONPathEnvironment.compare")
-    br = compare_branches(ctx)
+    br = _branches(ctx)
+    if br is None:
+        from .c02 import run_compare
+
+        cases = [("abc", "a.c", 0, True), ("xabcx", "a.c", 0, False), ("abcx", "a.c", 0, False), ("xabc", "a.c", 0, False), ("ABC", "a.c", re.I, True), ("ABC", "a.c", 0, False),
+                 ("a\nc", "a.c", re.S, True), ("a\nc", "a.c", 0, False), (5, "5", 0, False)]
+        from sa.peval import UNKNOWN as _UNK4
+
+        results4 = [(t, pat, fl, want, run_compare(ctx, "R13.4", t, "=~", re.compile(pat, fl))) for t, pat, fl, want in cases]
+        if any(got is _UNK4 for *_x, got in results4):
+            raise AnalysisError("R13.4: what compare() answers for `=~` cannot be determined")
+        wrong = [(t, pat, fl, got) for t, pat, fl, want, got in results4 if got is not want]
+        if not wrong:
+            rr.ok(fn.loc(), "`=~` is a full match that honours the flags of the compiled pattern (compare() executed abstractly on 9 cases)")
+        else:
+            t, pat, fl, got = wrong[0]
+            rr.bad(fn, fn.node, f"`{t!r} =~ /{pat}/` (flags {fl}) evaluates to {got}: `=~` must be a full match honouring the flags", construct=f"=~: {t!r} against /{pat}/")
+        br = {"=~": None}
     if "=~" not in br:
         rr.bad(fn, fn.node, "compare() has no branch for `=~`", construct="no branch for =~")
-    else:
+    elif br["=~"] is not None:
         prims = [callee_name(c) for c in calls(br["=~"][1]) if callee_name(c) in ("fullmatch", "match", "search", "findall")]
         if prims == ["fullmatch"]:
             rr.ok(fn.loc(br["=~"][0]), "`=~` uses Pattern.fullmatch")
